@@ -5,11 +5,12 @@ import (
 	"context"
 	"errors"
 	"fmt"
+	"net/url"
 	"os"
 	"strings"
+	"sync"
 	"time"
 
-	"github.com/cenkalti/backoff/v4"
 	f_log "github.com/transparency-dev/formats/log"
 	"github.com/transparency-dev/witness/internal/feeder"
 	"github.com/transparency-dev/witness/internal/witness"
@@ -23,6 +24,16 @@ import (
 func init() { Registry["C13"] = c13 }
 
 var errTransient = errors.New("verif: transient failure")
+
+// Transient failures come in the kinds real clients produce: a plain error, a
+// per-request timeout (net/http reports *url.Error wrapping
+// context.DeadlineExceeded) and an inner cancellation - all while the
+// feeder's own context is live, so all of them must be retried.
+var c13Failures = []error{
+	errTransient,
+	&url.Error{Op: "Get", URL: "http://witness.test/", Err: context.DeadlineExceeded},
+	fmt.Errorf("verif: rpc failed: %w", context.Canceled),
+}
 
 type c13Call struct {
 	Kind    string // get, proof, update, fetchcp
@@ -139,11 +150,11 @@ func c13Exec(run *ev.Run, u *uni.U, gen *wh.CPGen, la wh.LogCfg, sc c13Scenario,
 		get: func(ctx context.Context, id string) ([]byte, error) {
 			attempt++
 			cl := rec("get")
-			switch c.Choose(3, "GetLatestCheckpoint") {
-			case 1:
-				cl.Err = errTransient
-				return nil, errTransient
-			case 2:
+			switch k := c.Choose(5, "GetLatestCheckpoint"); k {
+			case 1, 2, 3:
+				cl.Err = c13Failures[k-1]
+				return nil, cl.Err
+			case 4:
 				advance()
 			}
 			if sc.Real {
@@ -160,11 +171,11 @@ func c13Exec(run *ev.Run, u *uni.U, gen *wh.CPGen, la wh.LogCfg, sc c13Scenario,
 		update: func(ctx context.Context, id string, old uint64, cp []byte, proof [][]byte) ([]byte, error) {
 			cl := rec("update")
 			cl.Old, cl.CP, cl.Proof = old, cp, proof
-			switch c.Choose(3, "Update") {
-			case 1:
-				cl.Err = errTransient
-				return nil, errTransient
-			case 2:
+			switch k := c.Choose(5, "Update"); k {
+			case 1, 2, 3:
+				cl.Err = c13Failures[k-1]
+				return nil, cl.Err
+			case 4:
 				advance()
 			}
 			if sc.Real {
@@ -193,9 +204,9 @@ func c13Exec(run *ev.Run, u *uni.U, gen *wh.CPGen, la wh.LogCfg, sc c13Scenario,
 		FetchProof: func(ctx context.Context, from, to f_log.Checkpoint) ([][]byte, error) {
 			cl := rec("proof")
 			cl.From, cl.To = from, to
-			if c.Choose(2, "FetchProof") == 1 {
-				cl.Err = errTransient
-				return nil, errTransient
+			if k := c.Choose(4, "FetchProof"); k > 0 {
+				cl.Err = c13Failures[k-1]
+				return nil, cl.Err
 			}
 			p := [][]byte{}
 			if from.Size > 0 && from.Size < to.Size && int(to.Size) <= u.N {
@@ -210,7 +221,7 @@ func c13Exec(run *ev.Run, u *uni.U, gen *wh.CPGen, la wh.LogCfg, sc c13Scenario,
 	}
 	timers := 0
 	horizonHit := false
-	backoff.VerifTimerHook = func(d time.Duration) bool {
+	releaseHook := wh.GoroutineTimerHook(func(d time.Duration) bool {
 		timers++
 		if timers > horizon {
 			cancelled, horizonHit = true, true
@@ -223,9 +234,9 @@ func c13Exec(run *ev.Run, u *uni.U, gen *wh.CPGen, la wh.LogCfg, sc c13Scenario,
 			return false
 		}
 		return true
-	}
+	})
 	res, err := feeder.FeedOnce(ctx, opts)
-	backoff.VerifTimerHook = nil
+	releaseHook()
 
 	// ------------------------------------------------------------ oracle
 	rep := map[string]any{"kind": "feed-cycle", "scenario": sc.String(), "choices": c.Choices(), "deviations": c.Trace()}
@@ -445,6 +456,7 @@ func c13(tier string) int {
 	la := wh.LogCfg{Origin: logA(), Key: u.K1}
 	total := int64(0)
 	maxPts := 0
+	var scs []c13Scenario
 	for _, real := range []bool{false, true} {
 		for w := -1; w <= 5; w++ {
 			for head := 0; head <= 6; head++ {
@@ -452,29 +464,47 @@ func c13(tier string) int {
 					if kind == "fork" && head == 0 {
 						continue
 					}
-					sc := c13Scenario{W: w, Head: head, Kind: kind, Real: real}
-					b := bound
-					if tier == "thorough" && (kind == "wrong-key" || kind == "wrong-origin") {
-						b = 2
-					}
-					st, err := choice.Explore(b, func(c *choice.C) {
-						c13Exec(run, u, gen, la, sc, c, bound+3)
-						if c.Deviations() > 0 {
-							run.Distinct(sc.String() + fmt.Sprint(c.Trace()))
-						}
-					})
-					if err != nil {
-						ev.Internal("C13 %s: %v", sc, err)
-					}
-					total += st.Executions
-					if st.MaxPoints > maxPts {
-						maxPts = st.MaxPoints
-					}
-					run.Add("scenarios", 1)
+					scs = append(scs, c13Scenario{W: w, Head: head, Kind: kind, Real: real})
 				}
 			}
 		}
 	}
+	var mu sync.Mutex
+	var wg sync.WaitGroup
+	ch := make(chan c13Scenario)
+	for i := 0; i < workers(); i++ {
+		wg.Add(1)
+		go func() {
+			defer wg.Done()
+			for sc := range ch {
+				b := bound
+				if tier == "thorough" && (sc.Kind == "wrong-key" || sc.Kind == "wrong-origin") {
+					b = 2
+				}
+				st, err := choice.Explore(b, func(c *choice.C) {
+					c13Exec(run, u, gen, la, sc, c, bound+3)
+					if c.Deviations() > 0 {
+						run.Distinct(sc.String() + fmt.Sprint(c.Trace()))
+					}
+				})
+				if err != nil {
+					ev.Internal("C13 %s: %v", sc, err)
+				}
+				mu.Lock()
+				total += st.Executions
+				if st.MaxPoints > maxPts {
+					maxPts = st.MaxPoints
+				}
+				mu.Unlock()
+				run.Add("scenarios", 1)
+			}
+		}()
+	}
+	for _, sc := range scs {
+		ch <- sc
+	}
+	close(ch)
+	wg.Wait()
 	run.Sample(map[string]any{"scenario": "real witness=3 head=5 honest", "environment_answers": []string{"#0 FetchCheckpoint ok", "#1 GetLatestCheckpoint -> transient failure", "#2 backoff-timer -> fire", "#3 GetLatestCheckpoint -> ok but the witness was advanced by another feeder", "..."}})
 	run.Set("evaluations", total)
 	run.Set("executions", total)
@@ -486,7 +516,7 @@ func c13(tier string) int {
 			run.Vacuous("cycle outcome %q never observed", k)
 		}
 	}
-	run.Set("rule", fmt.Sprintf("for witness state in {none, 0..5} x log head in 0..6 x {honest, fork of the witnessed prefix, wrong key, wrong origin} x {recording stub witness, real witness behind the real witnessAdapter}: the real feeder.FeedOnce is run with every environment call answered by the explorer - FetchCheckpoint {ok, fail}, GetLatestCheckpoint {ok, transient failure, ok after another feeder advanced the witness}, FetchProof {ok, fail}, Update {ok, transient failure, witness advanced first}, back-off timer {fires at once, context ends at this wait} - for every placement of up to %d non-default answers (deviation-bounded DFS, positions discovered dynamically; the back-off timer is replaced by an overlay of backoff/timer.go so no wall-clock time passes; a horizon of %d timer starts ends the context). Oracle = reference model of one cycle (see DESIGN.md C13). distinct_nontrivial = distinct (scenario, placement) with at least one deviation", bound, bound+3))
+	run.Set("rule", fmt.Sprintf("for witness state in {none, 0..5} x log head in 0..6 x {honest, fork of the witnessed prefix, wrong key, wrong origin} x {recording stub witness, real witness behind the real witnessAdapter}: the real feeder.FeedOnce is run with every environment call answered by the explorer - FetchCheckpoint {ok, fail}, GetLatestCheckpoint {ok, transient failure of 3 kinds (plain error, per-request timeout wrapping context.DeadlineExceeded, inner context.Canceled), ok after another feeder advanced the witness}, FetchProof {ok, 3 failure kinds}, Update {ok, 3 failure kinds, witness advanced first}, back-off timer {fires at once, context ends at this wait} - for every placement of up to %d non-default answers (deviation-bounded DFS, positions discovered dynamically; the back-off timer is replaced by an overlay of backoff/timer.go so no wall-clock time passes; a horizon of %d timer starts ends the context). Oracle = reference model of one cycle (see DESIGN.md C13). distinct_nontrivial = distinct (scenario, placement) with at least one deviation", bound, bound+3))
 	run.Assumption("the back-off timer overlay changes only whether/when the timer fires; retry policy, context handling and permanent-error logic are the library's and the repository's")
 	return run.Finish()
 }
